@@ -13,6 +13,11 @@
 (*                   abstraction: part kLo of the sum sees lo, the rest hi) *)
 (*  ClipIndexOK    : sum|k| * 2 < 5 P keeps (acc div P) inside -640..639   *)
 (*  ClipIndexBad   : without that bound it does not (expected counter-ex.) *)
+(*  AccFits32/64   : with the documented head-room (sum|k| < 4 P) and the  *)
+(*                   precision caps p <= 21 / p <= 45 the i32 / i64        *)
+(*                   accumulators cannot overflow for any samples          *)
+(*  AccBad32       : one more bit of precision and they can (expected      *)
+(*                   counter-example) -- why Precision16 stops at 21       *)
 (***************************************************************************)
 EXTENDS Integers
 VARIABLES
@@ -37,7 +42,7 @@ Pows16 == Pows8 \cup {4194304, 8388608, 16777216, 33554432, 67108864, 134217728,
                      4294967296, 8589934592, 17179869184, 34359738368, 68719476736, 137438953472, 274877906944, 549755813888,
                      1099511627776, 2199023255552, 4398046511104, 8796093022208, 17592186044416, 35184372088832}
 Init == /\ P \in Pows16 /\ S \in 0 .. 140737488355328 /\ v \in 0 .. 65535 /\ k \in 0 .. 4294967296
-        /\ acc \in -140737488355328 .. 140737488355328 /\ lo \in 0 .. 65535 /\ hi \in 0 .. 65535 /\ lo <= hi
+        /\ acc \in -36893488147419103232 .. 36893488147419103232 /\ lo \in 0 .. 65535 /\ hi \in 0 .. 65535 /\ lo <= hi
         /\ kLo \in 0 .. 140737488355328 /\ kLo <= S
 Next == UNCHANGED <<P, S, v, k, acc, lo, hi, kLo>>
 
@@ -63,4 +68,9 @@ ClipIndexOK == (P \in Pows8 /\ 2 * S < 5 * P /\ Abs(acc - P \div 2) <= 255 * S) 
 ClipIndexNorm == (P \in Pows8 /\ S < 4 * P /\ kLo >= 0 /\ (S - kLo) - kLo = P
                   /\ acc - P \div 2 <= 255 * (S - kLo) /\ acc - P \div 2 >= -255 * kLo) => (acc \div P >= -640 /\ acc \div P <= 639)
 ClipIndexBad == (P \in Pows8 /\ S < 4 * P /\ Abs(acc - P \div 2) <= 255 * S) => (acc \div P >= -640 /\ acc \div P <= 639)
+\* accumulators: acc = P/2 + sum k x, |sum k x| <= max * sum|k| ; S plays sum |k|
+AccFits32 == (P \in Pows8 /\ S < 4 * P /\ Abs(acc - P \div 2) <= 255 * S) => (acc >= -2147483648 /\ acc <= 2147483647)
+AccFits64 == (P \in Pows16 /\ S < 4 * P /\ Abs(acc - P \div 2) <= 65535 * S)
+                => (acc >= -9223372036854775808 /\ acc <= 9223372036854775807)
+AccBad32 == (P = 4194304 /\ S < 4 * P /\ Abs(acc - P \div 2) <= 255 * S) => (acc >= -2147483648 /\ acc <= 2147483647)
 =============================================================================
